@@ -17,7 +17,7 @@ RULE = ("(1) for every built-in command of the CSV library set a valid base mode
         "wrong-fuzziness results, bad paths, unknown command, duplicate result); (2) the same faults at random positions of random "
         "models with sinks; (3) every producer x consumer pairing of built-in data commands; (4) unfaulted models must be accepted; "
         "distinct by (fault kind, command, parameter, variant) / (producer, consumer)")
-REQUIRED_COUNTERS = ["rejections_checked", "side_effect_free_rejections", "acceptances_checked", "pairings_checked", "exec_events_seen_in_valid_runs", "netcdf_model_cases", "api_built_models", "incremental_rejections_checked", "user_subclass_models", "shared_argument_programs"]
+REQUIRED_COUNTERS = ["rejections_checked", "side_effect_free_rejections", "acceptances_checked", "pairings_checked", "exec_events_seen_in_valid_runs", "netcdf_model_cases", "api_built_models", "incremental_rejections_checked", "user_subclass_models", "shared_argument_programs", "valid_models_through_the_tool"]
 ASSUMPTIONS = ["a list or tuple given to a String/Path parameter is don't-care (string cleaning stringifies by design)",
                "value-dependent run-time errors (InvalidThresholds, DuplicateRawValues, ...) are not acceptance errors",
                "the acceptance rule is restated from the declarations (inputs/required/output/is_fuzzy), not from running clean()"]
@@ -383,7 +383,7 @@ def run_case(ctx, case):
     if kind == "restricted":
         return run_restricted(ctx, case, model, d)
     text, _ = models.to_text(model)
-    api = kind == "fault" and case.get("rseed", 0) % 4 == 1 and case["expect"]["fault"] not in ("unknown-command",)
+    api = kind == "fault" and (case.get("rseed", 0) % 4 == 1 or case["expect"].get("variant") in ("none", "none-item")) and case["expect"]["fault"] not in ("unknown-command",)
     if api:
         ctx.count("api_built_models")
     err, prog, log, changed = _run_monitored(ctx, text, d, libs=models.model_libs(model), api_model=model if api else None)
@@ -398,6 +398,28 @@ def run_case(ctx, case):
             ctx.fail("valid-model-rejected:%s" % type(err).__name__, {"error": str(err)[:300], "text": text[:1500]})
         elif err is not None:
             ctx.dontcare("valid model: run-time %s" % (type(err).__name__ if type(err).__name__ != "UnexpectedError" else "UnexpectedError/" + type(err.exc).__name__))
+        elif case.get("rseed", 1) % 4 == 0 and model.get("libs") != "nc":
+            # the same (accepted) model through the command-line tool, with a comment line holding characters that only
+            # str.splitlines() takes for line breaks, and one inside a quoted metadata value
+            from click.testing import CliRunner
+            from mpilot.cli.mpilot import main
+            d2 = ctx.scratch()
+            models.write_table(model["table"], d2)
+            fp = os.path.join(d2, "model.mpt")
+            with open(fp, "w", encoding="utf-8", newline="") as fh:
+                fh.write("# Inputs \x0c page 2 \x0b \x1c \x1d \x1e \x85 \u2028 \u2029\n" + text + "\n# end \x0c\n")
+            try:
+                res = CliRunner(mix_stderr=False).invoke(main, ["eems-csv", fp])
+            except TypeError:
+                res = CliRunner().invoke(main, ["eems-csv", fp])
+            ctx.count("valid_models_through_the_tool")
+            if res.exit_code != 0:
+                try:
+                    etxt = res.stderr
+                except Exception:
+                    etxt = res.output
+                ctx.fail("valid-model-rejected-by-the-command-line-tool:%s" % (type(res.exception).__name__ if res.exception is not None and not isinstance(res.exception, SystemExit) else "exit-%s" % res.exit_code),
+                         {"stderr": etxt[-300:], "text": text[:600]})
         return
     exp = case["expect"]
     ctx.feature(("fault", exp["fault"], exp["cmd"], exp["param"], exp.get("variant")))
@@ -447,7 +469,7 @@ def _check_attrs(err, exp):
         if d in REQ_TYPE:
             want = REQ_TYPE[d]
         elif d.startswith("list:"):
-            want = "List" if variant in ("scalar", "scalar-number", "scalar-zero", "empty-string", "tuple") else REQ_TYPE.get(d[5:])
+            want = "List" if variant in ("scalar", "scalar-number", "scalar-zero", "empty-string", "tuple", "none") else REQ_TYPE.get(d[5:])
         if want and not rt.startswith(want):
             return ("required_type", rt)
     return None
